@@ -60,7 +60,8 @@ fn check(list: &[Horizontal], exact: bool, target: Scaled) -> Option<String> {
     let x = width - w;
     let (num, den) = (b.glue_ratio.num.0 as i64, b.glue_ratio.den.0 as i64);
     if den == 0 { return Some("glue ratio with zero denominator".into()); }
-    if x == 0 { if num != 0 { return Some("exact fit but glue is set".into()); } }
+    // TeX.2021.658: x = 0 leaves the box unset: glue_sign normal, glue_ORDER normal, ratio zero
+    if x == 0 { if num != 0 { return Some("exact fit but glue is set".into()); } if oi(b.glue_order) != 0 { return Some(format!("exact fit (excess 0) but glue order {:?}: TeX.2021.658 sets it to normal", b.glue_order)); } }
     else if x > 0 {
         let o = top(&st);
         if st[o] != 0 {
@@ -68,6 +69,7 @@ fn check(list: &[Horizontal], exact: bool, target: Scaled) -> Option<String> {
             // natural width + ratio * total stretch == box width, WITH sign (a negative total stretch needs a negative ratio)
             if num * st[o] != x * den { return Some(format!("glue ratio {num}/{den} does not make total stretch {} fill the excess {x}", st[o])); }
         } else if num != 0 { return Some(format!("no stretchability (totals {st:?}) but glue ratio {num}/{den} is set")); }
+        else if oi(b.glue_order) != 0 { return Some(format!("no stretchability but glue order {:?} (TeX.2021.659: o = normal)", b.glue_order)); }
     } else {
         let o = top(&sh);
         if sh[o] != 0 {
@@ -76,6 +78,7 @@ fn check(list: &[Horizontal], exact: bool, target: Scaled) -> Option<String> {
             // the same equation for shrinking: natural width + ratio * total shrink == box width (the ratio is negative)
             else if num * sh[o] != x * den { return Some(format!("glue ratio {num}/{den} does not make total shrink {} absorb the excess {x}", sh[o])); }
         } else if num != 0 { return Some(format!("no shrinkability (totals {sh:?}) but glue ratio {num}/{den} is set")); }
+        else if oi(b.glue_order) != 0 { return Some(format!("no shrinkability but glue order {:?} (TeX.2021.665: o = normal)", b.glue_order)); }
     }
     None
 }
